@@ -73,7 +73,22 @@ int vg_offset;      /* ghost: the value copy_from_history obtained from read_off
 static size_t vg_p0, vg_l0;
 static unsigned vg_n0;
 
+#ifdef VG_REDUCED_RING
+/* Reduced-ring instantiation (DESIGN.md section 2 item 7): the template with this method's real OFFSET_BITS /
+   NUM_CODES (/ LHARK) but HISTORY_BITS lowered to 14, used ONLY for functions that never index the ring
+   themselves (they see it through the contracts of output_byte / copy_from_history, which are proved at the
+   real ring size).  Group <unit>.params checks VG_OB / VG_NC / VG_LHARK against the method file. */
+#define HISTORY_BITS 14
+#define OFFSET_BITS VG_OB
+#define NUM_CODES VG_NC
+#define DECODER_NAME vg_reduced_decoder
+#if VG_LHARK
+#define LHARK
+#endif
+#include "lib/lh_new_decoder.c"
+#else
 #include VG_METHOD_FILE
+#endif
 
 TreeElement *const vg_bt_tree = VG_BT_ARRAY;
 TreeElement *const vg_rt_tree = VG_RT_ARRAY;
@@ -213,6 +228,39 @@ void h_read_skip_count_func(void)
 void h_output_byte(void) { LHANewDecoder *d; uint8_t *b; size_t *bl; uint8_t v; vg_havoc(); output_byte(d, b, bl, v); VG_CANARY("output_byte"); }
 void h_copy_from_history(void) { LHANewDecoder *d; uint8_t *b; size_t *bl; size_t c; vg_havoc(); copy_from_history(d, b, bl, c); VG_CANARY("copy_from_history"); }
 void h_read(void) { void *d; uint8_t *b; vg_havoc(); lha_lh_new_read(d, b); VG_CANARY("lha_lh_new_read"); }
+
+#if defined(VG_OB) && !defined(VG_REDUCED_RING)
+void h_params(void)
+{
+#ifdef LHARK
+	__CPROVER_assert(VG_LHARK == 1, "reduced-ring groups use the LHARK variant for this method");
+#else
+	__CPROVER_assert(VG_LHARK == 0, "reduced-ring groups use the plain variant for this method");
+#endif
+	__CPROVER_assert(OFFSET_BITS == VG_OB && NUM_CODES == VG_NC, "reduced-ring groups use this method's OFFSET_BITS and NUM_CODES");
+	VG_CANARY("params");
+}
+#endif
+#ifdef VG_HARNESS_MODE
+/* output_byte at the real ring size: its contract checked around the real call (loop-free; quantifier-free; SMT) */
+void h_output_byte_hm(void)
+{
+	size_t bl = nondet_size_t(), l0, p0;
+	uint8_t b = nondet_uchar();
+	vg_havoc();
+	__CPROVER_assume(vg_dec.ringbuf_pos < RING_BUFFER_SIZE && bl < OUTPUT_BUFFER_SIZE);
+	vg_dec0 = vg_dec;
+	l0 = bl; p0 = vg_dec.ringbuf_pos;
+	output_byte(&vg_dec, vg_out, &bl, b);
+	__CPROVER_assert(bl == l0 + 1 && vg_dec.ringbuf_pos < RING_BUFFER_SIZE, "output_byte: contract postcondition (length + 1, position in range)");
+	__CPROVER_assert(vg_out[l0] == b && vg_dec.ringbuf[p0] == b && vg_dec.ringbuf_pos == (p0 + 1) % RING_BUFFER_SIZE,
+	                 "output_byte: byte stored in output and window, position advanced mod S");
+	__CPROVER_assert(vg_dec.ringbuf[vg_Y] == (vg_Y == p0 ? b : vg_dec0.ringbuf[vg_Y]), "output_byte: other window cells unchanged");
+	__CPROVER_assert(vg_dec.block_remaining == vg_dec0.block_remaining && vg_dec.bit_stream_reader.bits == vg_dec0.bit_stream_reader.bits &&
+	                 vg_dec.bit_stream_reader.bit_buffer == vg_dec0.bit_stream_reader.bit_buffer, "output_byte: frame (scalars untouched)");
+	VG_CANARY("output_byte_hm");
+}
+#endif
 
 /* The LHADecoderType initialiser ties the contracts to what lha_decoder_new allocates. */
 void h_dtype(void)
